@@ -118,7 +118,8 @@ REQUIRED = ["CifModel.C12_clean", "CifModel.C12_first_report_is_policy_free", "C
             "CifModel.Model.Parser.DieSeg.nest", "CifModel.Model.Parser.die_null_loop", "CifModel.Props.C12_die_in_frames",
             "CifModel.Props.C12_die_null_loop", "CifModel.Model.Parser.die_dup_header_name", "CifModel.Props.C12_die_dup_header_name",
             "CifModel.Model.Parser.die_item_of_value", "CifModel.Model.Parser.values_open_die", "CifModel.Model.Parser.die_missing_delim_list",
-            "CifModel.Props.C12_die_missing_delim_list", "CifModel.Props.C12Die.C12_die_in_frames_instance"]
+            "CifModel.Props.C12_die_missing_delim_list", "CifModel.Model.Parser.die_missing_delim_table",
+            "CifModel.Props.C12_die_missing_delim_table", "CifModel.Props.C12Die.C12_die_in_frames_instance"]
 GEN = ["ErrCodes", "CharClass", "ParseConsts"]
 FAMILIES = ["defect"]
 TRUSTED_BASE = [
@@ -154,9 +155,9 @@ PARTIAL = [
     "theorems are available as segments (C12_seg_<class>: 12 classes).  The one combination inside ONE element — a dropped header name and a short "
     "last packet in the same loop — is proved for ALL instances (C12_dup_header_name_partial_packet; before: evaluated instances).  ABORT-ON-ERROR "
     "handler: return value = the class's code, exactly one report, AND the content: what stands in front of the defect, nothing behind it (`DieSeg`, "
-    "Lemmas/ParserDefectDie: missing value, unexpected value, duplicate / invalid item name, unexpected delimiter, unexpected save_, empty loop header, duplicate name in a loop header, unterminated list (`die_item_of_value`: any abort inside parse_value leaves the item unstored), invalid bare "
+    "Lemmas/ParserDefectDie: missing value, unexpected value, duplicate / invalid item name, unexpected delimiter, unexpected save_, empty loop header, duplicate name in a loop header, unterminated list / table (`die_item_of_value`: any abort inside parse_value leaves the item unstored), invalid bare "
     "value; in a block and inside save frames nested to any depth — every open frame exists, unpruned: DieSeg.nest).  NOT proved: the die-policy content for the classes whose report "
-    "is made after part of the construct has been stored (partial packet, table-key and delimiter classes, frame and block "
+    "is made after part of the construct has been stored or inside a table (partial packet, table-key classes, frame and block "
     "classes) — for them only return value and log (C03_die_is_first); policies that accept some codes and reject others beyond "
     "C03_prefix_determinism; two defects when the first is one of the scanner-level classes (those are next_token statements, not segments)",
     "SCANNER LEVEL (Props/C12Scan.lean, C12ScanMulti.lean; Lemmas/LexDefect*.lean, LexReserved.lean): CIF_DISALLOWED_INITIAL_CHAR, "
